@@ -848,6 +848,13 @@ class Group(System):
                         graph.add_node(comp, local=False)
                         empty_comps.add(comp)
 
+        # The outputs (states) of an implicit component depend on each other through its
+        # residuals, so they also feed back into their component.
+        implicit_comps = {s.pathname for s in self.system_iter(recurse=True, typ=Component)
+                          if not s.is_explicit()}
+        if self.comm.size > 1:
+            implicit_comps = set().union(*self.comm.allgather(implicit_comps))
+
         resolver = self._resolver
         for direction in ('input', 'output'):
             isout = direction == 'output'
@@ -861,6 +868,8 @@ class Group(System):
 
                 if isout:
                     graph.add_edge(comp, vname)
+                    if comp in implicit_comps:
+                        graph.add_edge(vname, comp)
                 else:
                     graph.add_edge(vname, comp)
 
